@@ -11,6 +11,8 @@ mod c12;
 mod c14;
 #[cfg(not(feos_verif_shuttle))]
 mod c18;
+#[cfg(not(feos_verif_shuttle))]
+mod c18d;
 
 use common::*;
 use std::sync::Arc;
@@ -109,6 +111,7 @@ fn dispatch(engine: &str, opts: &Options, replay_file: Option<&str>) -> i32 {
             0
         }
         "c18-profile" => go(c18::C18, (240, 20_000), opts, replay_file),
+        "c18-driver" => go(c18d::C18Driver, (96, 6000), opts, replay_file),
         "c12-session" => go(c12::C12 { driver: false, no_faults: false }, (10_000, 600_000), opts, replay_file),
         "c12-session-nofault" => go(c12::C12 { driver: false, no_faults: true }, (8000, 300_000), opts, replay_file),
         "c12-driver" => go(c12::C12 { driver: true, no_faults: false }, (1500, 100_000), opts, replay_file),
